@@ -66,6 +66,7 @@ SPECS["C01"] = dict(
         rapid("TestC01Session", 400, 12000, sq=6, st=16),
         rapid("TestC01FreeRun", 120, 4000, sq=3, st=12),
         dict(rapid("TestC01FreeRun", 60, 1500, sq=1, st=6), label="TestC01FreeRun-race", race=True, tiers=(T,)),
+        rapid("TestC01RealUDP", 40, 1500, sq=2, st=8),
     ],
 )
 
@@ -283,6 +284,7 @@ SPECS["C15"] = dict(
         rapid("TestC15Close", 350, 10000, sq=4, st=16),
         rapid("TestC15Pool", 250, 8000, sq=4, st=16),
         rapid("TestC15PoolAutoTune", 600, 20000, sq=2, st=8),
+        rapid("TestC15RealUDP", 40, 1500, sq=2, st=8),
     ],
 )
 
@@ -315,6 +317,7 @@ SPECS["C11"] = dict(
         rapid("TestC11Isolation", 250, 8000, sq=4, st=16),
         plain("TestC11KnownStaleFEC", sq=1, st=1),
         rapid("TestC11Backlog", 10, 150, sq=2, st=8),
+        rapid("TestC11RealUDP", 40, 1500, sq=2, st=8),
     ],
 )
 
